@@ -272,6 +272,7 @@ def corr_once(sub, seed, n, replay_lines=None, mode=None, keep=None, extra=None)
 
 
 def still_fails(sub, line, mode=None):
+    old = os.environ.get("VERIF_IMPL_TIMEOUT")
     try:
         os.environ["VERIF_IMPL_TIMEOUT"] = "60"
         _, _, failing = corr_once(sub, 0, 0, replay_lines=[line], mode=mode)
@@ -279,7 +280,10 @@ def still_fails(sub, line, mode=None):
     except Exception:
         return False
     finally:
-        os.environ.pop("VERIF_IMPL_TIMEOUT", None)
+        if old is None:
+            os.environ.pop("VERIF_IMPL_TIMEOUT", None)
+        else:
+            os.environ["VERIF_IMPL_TIMEOUT"] = old
 
 
 def shrink(sub, line, list_fields, mode=None, budget=60):
